@@ -1020,6 +1020,8 @@ def _int(eng, x=0, base=10):
         return int(x)
     if isinstance(x, CrcVal):
         return crc_term(eng, x)
+    if x is None or isinstance(x, (SBytes, list, dict)):
+        raise ModelRaise("TypeError", ["int() argument must be a string, a bytes-like object or a real number"], cls=TypeError)
     return x
 
 
